@@ -62,6 +62,9 @@ def _const_of(o):
     return None
 
 
+RANK_FB = [None]
+
+
 def ranking_info(b, head, tail):
     """(ok, description, info): the natural loop (tail -> head) is controlled by a counter: a test
     evaluated on every iteration leaves the loop once the counter reaches its bound, the counter
@@ -148,6 +151,24 @@ def ranking_info(b, head, tail):
             t = blk['term']
             if t['k'] == 'call' and t['dest']['l'] == ctr and i in loop:
                 others.append(i)
+        if init is None and 1 <= ctr <= b.argc and RANK_FB[0] is not None and not [x for x in others if x not in loop]:
+            # the budget is a parameter: every caller passes a positive constant
+            fb_ = RANK_FB[0]
+            vals = []
+            for cb in fb_.bodies():
+                for bb_, t_, fn_ in cb.calls():
+                    if fn_ and b.path in {mir.callee_name(fn_), fn_['path']} and len(t_['args']) >= ctr:
+                        a_ = t_['args'][ctr - 1]
+                        c_ = _const_of(a_)
+                        if c_ is None and a_.get('k') in ('copy', 'move') and not a_['p']['proj']:
+                            # a local assigned once from a constant
+                            defs = [s2['r'] for blk2 in cb.blocks for s2 in blk2['stmts']
+                                    if s2['k'] == 'assign' and s2['p']['l'] == a_['p']['l'] and not s2['p']['proj']]
+                            if len(defs) == 1 and defs[0]['k'] == 'use':
+                                c_ = _const_of(defs[0]['op'])
+                        vals.append(c_)
+            if vals and all(v is not None and v > 0 for v in vals):
+                init = max(vals)
         if init is None or init <= 0:
             last_why = 'counter _%d has no constant positive initial value dominating the loop' % ctr
             continue
@@ -374,6 +395,7 @@ def ranking(b, head, tail):
 
 def run_rules(ctx, chk):
     fb = ctx.facts()
+    RANK_FB[0] = fb
     chk.explanation = ('B1: the only loop on the client call paths (in snapshot()) has a ranking variable. B2: no other CFG '
                        'cycle and no call-graph cycle in the closure of ClockBoundClient::now / clockbound_now. B3: every external '
                        'callee of that closure is non-blocking (deny-list of blocking families, libc limited to clock_gettime). '
